@@ -1129,7 +1129,11 @@ func (h *c14h) judgeSeq(sc c14seqCase) (class, detail string, out []byte) {
 		if sc.unique {
 			what = "exactly the first sighting of every id, in order"
 		}
-		return "wrong-lines", fmt.Sprintf("ids produced %v: printed the results produced at positions [%s], want %s = positions [%s]; output %q",
+		cl := "wrong-lines"
+		if strings.Contains(strings.Join(printed, ","), "?") {
+			cl = "line-is-no-produced-record"
+		}
+		return cl, fmt.Sprintf("ids produced %v: printed the results produced at positions [%s], want %s = positions [%s]; output %q",
 			sc.seq, strings.Join(printed, ","), what, strings.Join(ws, ","), c14clip(out)), out
 	}
 	return "", "", out
